@@ -118,3 +118,49 @@ func VerifProcessorTwoClients() {
 	zzverif.Assert(zzverif.ThreadsAliveIs(0), "loop_goroutine_gone_after_close")
 	zzverif.Cover("processor_two_clients_done")
 }
+
+// Replacing the head item (same key, later time) while the loop is about to run it: the replaced item is never
+// executed, the new one runs exactly once and not before its own time.
+//
+//verif:harness prop=C06 name=processor_replace_head threads=3 sched=delay preempt=3 t_preempt=4 unwind=10 witness=lenient
+func VerifProcessorReplaceHead() {
+	start := zzverif.TimeFromNanos(1_000_000_000)
+	clk := zzverifstubs.NewClock(start)
+	log := &vLog{}
+	p := NewProcessor[int, *vItem](func(r *vItem) {
+		zzverif.Ghost(func() { log.execs = append(log.execs, vExec{id: r.id, at: clk.Now()}) })
+	}).WithClock(clk)
+	d2 := zzverif.Int64("new_delay")
+	zzverif.Assume(d2 >= 1_000_000)
+	zzverif.Assume(d2 <= 10_000_000)
+	old := &vItem{key: 1, due: start, id: 1} // due at once
+	repl := &vItem{key: 1, due: start.Add(time.Duration(d2)), id: 2}
+	viaDequeue := zzverif.Bool("dequeue_then_enqueue")
+	p.Enqueue(old)
+	// the client replaces it right away: the loop may or may not have run the old item yet
+	if viaDequeue {
+		p.Dequeue(1)
+	}
+	p.Enqueue(repl)
+	zzverif.WaitQuiescent()
+	for _, e := range log.execs {
+		if e.id == 2 {
+			zzverif.Assert(!e.at.Before(repl.due.Add(-500*time.Microsecond)), "not_early")
+		}
+	}
+	clk.AdvanceTo(repl.due)
+	zzverif.WaitQuiescent()
+	n1, n2 := 0, 0
+	for _, e := range log.execs {
+		if e.id == 1 {
+			n1++
+		} else {
+			n2++
+			zzverif.Assert(!e.at.Before(repl.due.Add(-500*time.Microsecond)), "not_early")
+		}
+	}
+	zzverif.Assert(n1 <= 1, "at_most_once")
+	zzverif.Assert(n2 == 1, "replacement_executed_exactly_once")
+	p.Close()
+	zzverif.Cover("processor_replace_head_done")
+}
